@@ -223,3 +223,80 @@ func tableOfParamPointers(al *ssa.Alloc) bool {
 	}
 	return n > 0
 }
+
+// InitClosure returns the functions that run only as part of package
+// initialisation: the synthetic init, declared init functions (init#N), and -
+// transitively - functions all of whose uses are static calls from functions
+// already in the set (a table-building helper called from init).
+func InitClosure(all map[*ssa.Function]bool) map[*ssa.Function]bool {
+	in := map[*ssa.Function]bool{}
+	for fn := range all {
+		if fn.Pkg != nil && fn.Parent() == nil && (fn.Name() == "init" || strings.HasPrefix(fn.Name(), "init#")) {
+			in[fn] = true
+		}
+	}
+	// uses of every function: static callers, or "escapes" (used as a value)
+	callers := map[*ssa.Function]map[*ssa.Function]bool{}
+	escapes := map[*ssa.Function]bool{}
+	for fn := range all {
+		for _, b := range fn.Blocks {
+			for _, instr := range b.Instrs {
+				var callee ssa.Value
+				if c, ok := instr.(ssa.CallInstruction); ok {
+					callee = c.Common().Value
+					if f := c.Common().StaticCallee(); f != nil {
+						if callers[f] == nil {
+							callers[f] = map[*ssa.Function]bool{}
+						}
+						callers[f][fn] = true
+					}
+				}
+				for _, op := range instr.Operands(nil) {
+					if f, ok := (*op).(*ssa.Function); ok && ssa.Value(f) != callee {
+						escapes[f] = true
+					}
+					if mc, ok := (*op).(*ssa.MakeClosure); ok {
+						if f, ok := mc.Fn.(*ssa.Function); ok && ssa.Value(mc) != callee {
+							escapes[f] = true
+						}
+					}
+				}
+			}
+		}
+	}
+	for changed := true; changed; {
+		changed = false
+		for fn := range all {
+			if in[fn] || escapes[fn] || fn.Blocks == nil {
+				continue
+			}
+			if fn.Parent() != nil {
+				// a function literal belongs to its parent
+				if in[fn.Parent()] {
+					in[fn], changed = true, true
+				}
+				continue
+			}
+			if fn.Object() != nil && fn.Object().Exported() {
+				continue
+			}
+			if fn.Signature.Recv() != nil {
+				continue // methods can be reached through interfaces
+			}
+			cs := callers[fn]
+			if len(cs) == 0 {
+				continue
+			}
+			ok := true
+			for c := range cs {
+				if !in[c] {
+					ok = false
+				}
+			}
+			if ok {
+				in[fn], changed = true, true
+			}
+		}
+	}
+	return in
+}
